@@ -5,7 +5,7 @@ from contracts import activation as ACTV
 ID = "C15"
 LEVEL = "other"
 TRUSTED = ["oracle: A(t) = sum_i A_i(0) 2^(-t/T_i) recomputed from Sample.activity with an independent reader of the half-lives"]
-EXPLANATION = "see DESIGN.md C15"
+EXPLANATION = ("Deductive: find_root (returns (x, f(x)); ZeroDivisionError only where the derivative vanishes), Sample.decay_time for 1-2 rest times and two products with activities >= 0 (t >= 0; 0 exactly when the activity at removal is at or below the target; otherwise within 0.1% or RuntimeError, no other exception; independent of which rest time is the reference), the empty case, and df == d/dt f for the closures (sympy). Convergence of Newton's iteration is not claimed: the bounded sampler runs the real solver on real samples, rest lists and targets.")
 
 
 def units(tier):
